@@ -156,6 +156,11 @@ fn check_overflow_count(ctx: &Ctx, declared: u16, st: &mut Stats) {
     }
 }
 
+fn base_message_plan(plan: u8) -> vcp::Message {
+    let raw = body(plan, 2, 2);
+    vcp::decode_volume_coverage_pattern(&mut raw.as_slice()).expect("reference VCP decodes")
+}
+
 fn base_message() -> vcp::Message {
     let raw = body(0, 1, 1);
     vcp::decode_volume_coverage_pattern(&mut raw.as_slice()).expect("reference VCP decodes")
@@ -372,6 +377,22 @@ pub fn run(ctx: &'static Ctx) -> (&'static str, Value, Vec<&'static str>) {
         })
         .reduce(Stats::new, Stats::merge);
     let s16 = s16.merge(sh);
+    // the raw sweeps again on other base messages: an accessor may depend only on its own field
+    let mut s16 = s16;
+    for plan in [1u8, 2, 4] {
+        let alt = base_message_plan(plan);
+        let sa: Stats = (0u32..65536)
+            .into_par_iter()
+            .fold(Stats::new, |mut st, raw| {
+                check_raw16(ctx, &alt, raw as u16, &mut st);
+                if raw < 256 {
+                    check_raw8(ctx, &alt, raw as u8, &mut st);
+                }
+                st
+            })
+            .reduce(Stats::new, Stats::merge);
+        s16 = s16.merge(sa);
+    }
     // short-read environment for the message decoder
     let mut ssr = Stats::new();
     {
